@@ -48,6 +48,19 @@ func (e errInfra) Error() string { return e.msg }
 
 func infraf(format string, a ...any) error { return errInfra{fmt.Sprintf(format, a...)} }
 
+// errOrder reports checkpoint <= HW <= LEO broken in an observed reactor view.
+type errOrder struct{ msg string }
+
+func (e errOrder) Error() string { return e.msg }
+
+func kindOf(err error) string {
+	var o errOrder
+	if errors.As(err, &o) {
+		return "invariant"
+	}
+	return "reply"
+}
+
 type sut interface {
 	// apply performs the call described by ev (its "res" is ignored) and returns the
 	// observed reply and the observed (possibly partial) projection.
@@ -480,7 +493,7 @@ func (s *reacSUT) apply(ev map[string]any, step int) (map[string]any, map[string
 	}
 	s.leo = v.LEO
 	if loaded && (v.CheckpointHW > v.HW || v.HW > v.LEO) {
-		return nil, nil, fmt.Errorf("watermark order broken in the reactor: checkpoint=%d hw=%d leo=%d", v.CheckpointHW, v.HW, v.LEO)
+		return nil, nil, errOrder{fmt.Sprintf("watermark order broken in the reactor: checkpoint=%d hw=%d leo=%d", v.CheckpointHW, v.HW, v.LEO)}
 	}
 	st := map[string]any{"role": roleName(v.Role), "leader": uint64(v.Leader),
 		"replicas": sortedNodes(v.Replicas), "isr": sortedNodes(v.ISR), "leo": v.LEO, "hw": v.HW}
@@ -544,7 +557,7 @@ func replay(rep *kit.Report, bi int, b kit.Behaviour) {
 			break
 		}
 		if err != nil {
-			rep.Violate(prop, "reply", fmt.Sprintf("step %d %s: %v", si+1, kit.JSON(call), err),
+			rep.Violate(prop, kindOf(err), fmt.Sprintf("[%s] step %d %s: %v", level, si+1, kit.JSON(call), err),
 				map[string]any{"behaviour": b, "step": si + 1})
 			break
 		}
@@ -850,7 +863,7 @@ func driveReactor(rep *kit.Report, rec *kit.Recorder, rng *rand.Rand, steps int)
 			if errors.As(err, &infra) {
 				rep.Infra("reactor driver: %v", err)
 			} else {
-				rep.Violate(prop, "invariant", fmt.Sprintf("%s: %v", kit.JSON(ev), err), map[string]any{"event": ev})
+				rep.Violate(prop, kindOf(err), fmt.Sprintf("[reactor] %s: %v", kit.JSON(ev), err), map[string]any{"event": ev})
 			}
 			return
 		}
@@ -889,10 +902,10 @@ func TestVerifChannelMachine(t *testing.T) {
 
 	// ---- code -> spec: seeded random drivers, traces validated by TLC ----
 	rng := env.Rand()
-	for tr := 0; tr < env.Pick(80, 2500) && rep.Violations() == 0; tr++ {
+	for tr := 0; tr < env.Pick(80, 1200) && rep.Violations() == 0; tr++ {
 		driveMachine(rep, rec, rng, 25+rng.Intn(40))
 	}
-	for tr := 0; tr < env.Pick(25, 400) && rep.Violations() == 0; tr++ {
+	for tr := 0; tr < env.Pick(25, 250) && rep.Violations() == 0; tr++ {
 		driveReactor(rep, rec, rng, 20+rng.Intn(25))
 	}
 	if err := rec.Close(); err != nil {
